@@ -196,6 +196,16 @@ func scheduledOutcome(sched []uint16, body func() *Outcome) *Outcome {
 	return o
 }
 
+// inSim runs code of the repository that the harness calls for its own purposes (building a pre-state, decoding a
+// file with the real loader) as a cooperative run of one task, so that goroutines, channels and timers inside it are
+// simulated there too.
+func inSim(sched []uint16, body func()) {
+	rr := simrt.Run([]func(){body}, sched, 50_000_000)
+	for _, pv := range rr.Panics {
+		panic(pv)
+	}
+}
+
 func runProperty[C any](t *testing.T, prop string, gen func(*rapid.T) C, run func(C) *Outcome) {
 	runPropertyEnum(t, prop, nil, gen, run)
 }
